@@ -814,8 +814,11 @@ fn var_case<C: Ck>(w: u32, h: u32, seed: u64, miri: bool, rep: &mut Report) {
                 chk.after_call(rep, rot, if via_iter { "draw_iter" } else { "set_pixel" }, pts, o.panic, backing, *exposed);
             };
             // every point of [-3, lw+3] x [-3, lh+3], every colour
-            for y in -3..=(lh as i32 + 3) {
-                for x in -3..=(lw as i32 + 3) {
+            // (Miri: one rotation per geometry, chosen by (w+h)%4, ~1.5 ms per interpreted call)
+            let grid = !miri || rot as u32 == (w + h) % 4;
+            let (gy, gx) = if grid { (lh as i32 + 3, lw as i32 + 3) } else { (-4, -4) };
+            for y in -3..=gy {
+                for x in -3..=gx {
                     let start = batch_colour(seed ^ 0x51, x, y, ncol);
                     for k in 0..ncol {
                         let ci = (start + k) % ncol;
@@ -855,20 +858,25 @@ fn var_case<C: Ck>(w: u32, h: u32, seed: u64, miri: bool, rep: &mut Report) {
             for &y in &ex {
                 for &x in &ex {
                     for ci in 0..ncol {
+                        if miri && ci != 0 && ci != ncol - 1 {
+                            continue; // Miri: first and last colour only at the extremes
+                        }
                         do_call(&mut chk, rep, &mut backing, &[(x, y, ci)], false, &mut exposed);
                     }
                 }
             }
             // one batch draw_iter over the whole grid (in- and out-of-bounds points mixed)
-            let mut pts = Vec::with_capacity(((lw + 7) * (lh + 7)) as usize);
-            for y in -3..=(lh as i32 + 3) {
-                for x in -3..=(lw as i32 + 3) {
-                    pts.push((x, y, batch_colour(seed ^ rot as u64, x, y, ncol)));
+            if grid {
+                let mut pts = Vec::with_capacity(((lw + 7) * (lh + 7)) as usize);
+                for y in -3..=(lh as i32 + 3) {
+                    for x in -3..=(lw as i32 + 3) {
+                        pts.push((x, y, batch_colour(seed ^ rot as u64, x, y, ncol)));
+                    }
                 }
-            }
-            do_call(&mut chk, rep, &mut backing, &pts, true, &mut exposed);
-            for ci in 0..ncol {
-                rep.nontrivial(h64(&[gh, w as u64, h as u64, bwrbit as u64, rot as u64, ci as u64]));
+                do_call(&mut chk, rep, &mut backing, &pts, true, &mut exposed);
+                for ci in 0..ncol {
+                    rep.nontrivial(h64(&[gh, w as u64, h as u64, bwrbit as u64, rot as u64, ci as u64]));
+                }
             }
         }
         chk.flush(rep);
@@ -1096,7 +1104,7 @@ pub fn run(ctx: &Ctx) -> Report {
     rep.note("VarDisplay backing slices start with seeded random bytes (so cleared bits are observable); alias buffers are first painted with a seeded random colour per pixel through one draw_iter call that is itself checked");
     rep.note("tag w%8!=0 marks VarDisplay<TriColor> geometries with w%8 in 1..=4, the widths for which ceil(2w/8) != 2*ceil(w/8); widths with w%8 in 5..=7 size correctly and get ordinary tags");
     if miri {
-        rep.note("mode miri: aliases skipped, VarDisplay w,h in 1..=10, single thread; coordinate extremes on 5 geometries per colour type, bwrbit=true only for TriColor, and of the VarDisplay<TriColor> geometries with w%8 in 1..=4 (known mis-sizing, every failing call is a caught panic costing ~0.1 s under Miri) only w in {1,4,9} x h in {1,3,10}");
+        rep.note("mode miri: aliases skipped, VarDisplay w,h in 1..=10, single thread; the point grid of each geometry is drawn in one rotation ((w+h)%4) instead of four; coordinate extremes (all four rotations, first and last colour) on 5 geometries per colour type, bwrbit=true only for TriColor, and of the VarDisplay<TriColor> geometries with w%8 in 1..=4 (known mis-sizing, every failing call is a caught panic costing ~0.1 s under Miri) only w in {1,4,9} x h in {1,3,10}");
     }
     rep
 }
